@@ -270,7 +270,7 @@ def _arm_file(draw):
         parts.append(draw(st.text(alphabet=others, max_size=2)))
         stext_raw = ''.join(parts)
         stext = None
-    return dict(arm='file', stext_raw=stext_raw, delim=delim, version=version, extra=extra, stext=stext, analysis=analysis,
+    return dict(arm='file', num_pad=draw(st.sampled_from([None, None, 'blank_left', 'blank_right'])), stext_raw=stext_raw, delim=delim, version=version, extra=extra, stext=stext, analysis=analysis,
                 analysis_in=draw(st.sampled_from(['header', 'text'])) if version != 'FCS2.0' else 'header',
                 stext_leading=draw(st.booleans()), analysis_leading=draw(st.booleans()),
                 blank_analysis=draw(st.booleans()),
@@ -330,7 +330,7 @@ def check(case, obs):
                     stext=case['stext'], analysis=case['analysis'], analysis_in=case['analysis_in'],
                     stext_leading=case['stext_leading'], analysis_leading=case['analysis_leading'],
                     blank_analysis=case['blank_analysis'], pad=case['pad'], pad_seed=case['pad_seed'],
-                    trail=case['trail'])
+                    trail=case['trail'], num_pad=case.get('num_pad'))
         path = os.path.join(workdir(), 'c14.fcs')
         if case.get('stext_raw') is not None:
             # a supplemental segment given verbatim: the file is read iff the reference reads the segment, and then
